@@ -15,5 +15,6 @@ CONSTANTS
   SnapDeleteOverlap = FALSE
   MaxOps = 1000
 INVARIANTS TypeOK FilesSorted GenFresh WALMatchesCache VisibleEqualsModel ReadEqualsModel DuringDelete DuringWrite NoResurrection
+PROPERTIES FinStable
 VIEW View
 CHECK_DEADLOCK FALSE
